@@ -395,7 +395,8 @@ def run(ctx):
         check_message(ctx, dec, q, names, msg.bytes, dict(origin='random', edition=ed, sec2=sec2 is not None, ids=ids,
                                                          hex=msg.bytes.hex()), ed, sec2 is not None)
         recent = ctx.__dict__.setdefault('_c17_recent', [])
-        recent.append((msg.bytes, msg.bytes))
+        if meta['data_category'] != 11:       # (a full scan reads category 11 as NCEP table definitions: only info-only streams carry it here)
+            recent.append((msg.bytes, msg.bytes))
         if len(recent) >= 6:
             ctx.count('mid_scan_blocks')
             if ctx.counters['mid_scan_blocks'] % (3 if ctx.quick else 2) == 1:
